@@ -557,10 +557,10 @@ func c20RunLog(in *c20In) Result {
 	}
 	sig := "log:clean"
 	switch {
-	case !c20WellBehaved(in.Ops, in.Ret):
-		sig = "handler-writes-after-commit"
 	case len(scopes) > 1:
 		sig = "overlapping-scopes"
+	case !c20WellBehaved(in.Ops, in.Ret):
+		sig = "handler-writes-after-commit"
 	}
 	res := Result{Term: term, Obs: map[string]interface{}{"lines": lines, "writer_status": cw.status, "delivered": cw.delivered,
 		"ret": ret, "panic": msg}, Sig: sig, Nontrivial: inScope > 0,
@@ -805,12 +805,12 @@ func c20SiteSig(in *c20In) string {
 	switch {
 	case c20Panics(in.Ops) && !in.HasErr && inScope:
 		return "panic-without-errors-directive"
-	case !c20WellBehaved(in.Ops, in.Ret):
-		return "handler-writes-after-commit"
 	case in.Head:
 		return "head-request"
 	case len(scopes) > 1:
 		return "overlapping-scopes"
+	case !c20WellBehaved(in.Ops, in.Ret):
+		return "handler-writes-after-commit"
 	case leak:
 		return "except-of-earlier-directive"
 	}
